@@ -421,6 +421,13 @@ func (r *TARun) runStage(job *TAJob, fault string) ([]byte, error) {
 	}
 	lookup := &r.Ast.TypeTable
 	argsCanon := string(compactJSON(job.Args))
+	// outputs must not depend on where the pipestance lives or on attempt uniquifiers
+	if root := r.PsDir; root != "" {
+		argsCanon = strings.ReplaceAll(argsCanon, root, "$PS")
+	} else if root := os.Getenv("VERIF_TB_PSDIR"); root != "" {
+		argsCanon = strings.ReplaceAll(argsCanon, root, "$PS")
+	}
+	argsCanon = reUniqDir.ReplaceAllString(argsCanon, "-uX")
 	// identity that is stable across attempts/incarnations (no uniquifier): fqname+role
 	seedOf := func(param string) *rand.Rand {
 		return rand.New(rand.NewSource(int64(hash64(job.Key, param, argsCanon))))
@@ -740,6 +747,10 @@ func (r *TARun) killPending(surviveProb float64) {
 			}
 			if ji != nil {
 				ji["pid"] = deadPid
+				if r.Rng.Intn(5) == 0 {
+					// the job monitor was killed after creating _log but before recording its pid
+					delete(ji, "pid")
+				}
 				if b, err := json.Marshal(ji); err == nil {
 					os.WriteFile(path.Join(j.MetadataPath, "_jobinfo"), b, 0o644)
 				}
